@@ -596,3 +596,80 @@ func scalarFromReflect(name string, rv reflect.Value) value {
 	}
 	panic(unsupported("native call of " + name + ": result kind " + rv.Kind().String()))
 }
+
+// ---- package sort over slices with a "less" closure ------------------------------------
+//
+// sort.Slice, sort.SliceStable and sort.SliceIsSorted use reflection to swap; the model sorts
+// the interpreter's own slice (in place, as the real functions do) by insertion, calling the
+// closure through the interpreter - a symbolic comparison result forks like any branch.
+// sort.Slice is modelled as a stable sort (one of the orders the real function may produce).
+
+func init() {
+	less := func(fr *frame, fn value, i, j int) bool {
+		r := call(fr.i, fr, 0, fn, []value{i, j})
+		switch r := r.(type) {
+		case bool:
+			return r
+		case sym:
+			return fr.path().branch(fr, r.t)
+		}
+		panic(unsupported("sort: less returned " + fmt.Sprintf("%T", r)))
+	}
+	sliceOf := func(x value) []value {
+		if it, ok := x.(iface); ok {
+			x = it.v
+		}
+		if p, ok := x.(*value); ok && p != nil {
+			x = *p
+		}
+		s, ok := x.([]value)
+		if !ok {
+			panic(unsupported("sort: argument is not a slice: " + fmt.Sprintf("%T", x)))
+		}
+		return s
+	}
+	sortStable := func(fr *frame, args []value) value {
+		s := sliceOf(args[0])
+		// insertion sort with adjacent swaps: only "less(j, j-1)" on the current contents
+		for i := 1; i < len(s); i++ {
+			for j := i; j > 0 && less(fr, args[1], j, j-1); j-- {
+				s[j], s[j-1] = s[j-1], s[j]
+			}
+		}
+		return nil
+	}
+	externals["sort.SliceStable"] = sortStable
+	externals["sort.Slice"] = sortStable
+	externals["sort.SliceIsSorted"] = func(fr *frame, args []value) value {
+		s := sliceOf(args[0])
+		for i := len(s) - 1; i > 0; i-- {
+			if less(fr, args[1], i, i-1) {
+				return false
+			}
+		}
+		return true
+	}
+	for name, conv := range map[string]func(a, b value) bool{
+		"sort.Ints":    func(a, b value) bool { return asInt64(a) < asInt64(b) },
+		"sort.Strings": func(a, b value) bool { return a.(string) < b.(string) },
+	} {
+		conv := conv
+		externals[name] = func(fr *frame, args []value) value {
+			s := sliceOf(args[0])
+			for _, e := range s {
+				if _, isSym := e.(sym); isSym {
+					panic(unsupported("sort of symbolic values"))
+				}
+				if _, isSym := e.(symstr); isSym {
+					panic(unsupported("sort of symbolic values"))
+				}
+			}
+			for i := 1; i < len(s); i++ {
+				for j := i; j > 0 && conv(s[j], s[j-1]); j-- {
+					s[j], s[j-1] = s[j-1], s[j]
+				}
+			}
+			return nil
+		}
+	}
+}
